@@ -188,6 +188,9 @@ class Narrower:
             if cur is not None:
                 f_env[var] = frozenset(t for t in cur if not any(t is c or c in t.mro for c in classes))
             return t_env, f_env
+        if isinstance(test, ast.Compare) and len(test.ops) == 1 and isinstance(test.ops[0], (ast.Is, ast.IsNot)) and isinstance(test.left, ast.Constant) and test.left.value is None and isinstance(test.comparators[0], ast.Name):
+            # `None is not v`: identity is symmetric
+            return self.narrow_test(ast.Compare(left=test.comparators[0], ops=test.ops, comparators=[test.left]), env)
         if isinstance(test, ast.Compare) and len(test.ops) == 1 and isinstance(test.left, ast.Name) and isinstance(test.comparators[0], ast.Constant) and test.comparators[0].value is None and isinstance(test.ops[0], (ast.Is, ast.IsNot)):
             # `v is not None`: v was bound to a non-None value only at sites where the other variables had the recorded types
             snaps = env.get("$corr", {}).get(test.left.id, ())
@@ -201,6 +204,15 @@ class Narrower:
                     narrowed[other] = allowed if cur is None else (cur & allowed)
             return (narrowed, dict(env)) if isinstance(test.ops[0], ast.IsNot) else (dict(env), narrowed)
         if isinstance(test, ast.Name):
+            # a flag: a local bound exactly once to a type test (`is_closing = not isinstance(x, C)`) stands for it
+            from .dataflow import local_defs as _ld
+
+            ds_ = _ld(self.fn).get(test.id, [])
+            if len(ds_) == 1 and ds_[0].kind == "assign" and isinstance(ds_[0].value, ast.AST):
+                v_ = ds_[0].value
+                core_ = v_.operand if isinstance(v_, ast.UnaryOp) and isinstance(v_.op, ast.Not) else v_
+                if isinstance(core_, ast.Call) and isinstance(core_.func, ast.Name) and core_.func.id == "isinstance":
+                    return self.narrow_test(v_, env)
             # truthiness of a model-typed local: same correlation as `is not None`
             fake = ast.Compare(left=test, ops=[ast.IsNot()], comparators=[ast.Constant(value=None)])
             return self.narrow_test(fake, env)
@@ -494,7 +506,14 @@ def a_r2_r3_properties(schema: Schema, rep: Report):
                         guarded = any(a == a_none and w != pol for a, w in it.filters) or any(a == v_ and w is True for a, w in it.filters)
                         rep.check("A-R3", f"{cname}.{fn.name}:collects-only-present({v_})", guarded, f"{text(call)} is reached without `{v_} is not None`: a wrapper that carries no statement (error response, {v_} absent) puts None into the list, and everything that walks .statements trips over it" if not guarded else "", f"{definer.mod.relpath}:{call.lineno}")
             try:
-                nr = Narrower(schema, ci, definer, fn, rep).run()
+                fn_n = fn
+                if any(isinstance(s_, (ast.Assign, ast.AnnAssign, ast.Return)) and isinstance(getattr(s_, "value", None), ast.IfExp) for s_ in ast.walk(fn)):
+                    # `x = a if isinstance(...) else b` narrows like the if-statement it abbreviates
+                    from . import canon as _canon
+                    from .dataflow import clone as _clone
+
+                    fn_n = _canon.ifexp_assignments_to_if(_clone(fn))
+                nr = Narrower(schema, ci, definer, fn_n, rep).run()
             except AnalysisError as e:
                 rep.undecided(f"A-R2 {cname}.{fn.name}", e)
                 continue
